@@ -1,10 +1,10 @@
 (** Histories of NESTED instance contributions: the invariant [NestInv] and the C09 statements derived from it.
 
-    A nested contribution is an import name with [KInstance i] where [i] is the root of a tree of interfaces of the
-    contributor's collection ([IDen]): no uses, pairwise different export names, leaves are resource-free functions, values
-    and value types, inner interfaces are anonymous and each of them is reached exactly once; the root has no identifier or
-    the import name as identifier.  Two contributions are [apart] when they share no interface (always the case for
-    contributions from different collections).
+    A nested contribution is an import name with [KInstance i] where [i] is the root of a nest of interfaces of the
+    contributor's collection ([SIDen]): no uses, pairwise different export names, leaves are resource-free functions, values
+    and value types, inner interfaces are anonymous; the root has no identifier or the import name as identifier.  One
+    interface may be mentioned in several places of one contribution and by several contributions (the repaired aggregator
+    copies an anonymous interface once per mention), and one contribution may occur several times in a history.
 
     [NestInv a s done]: every import of [a] is the root of such a tree in the aggregator's collection; the trees of
     different imports are disjoint ([n_roots], the ownership part: a merged nested interface has exactly one parent); and the
@@ -49,30 +49,12 @@ Section NHist.
   (** contribution [c] requires the tree [tr] and uses the interfaces [ids] of its collection *)
   Definition ncontrib (c : contrib) (tr : tree) (ids : list id) : Prop :=
     Col (fst (snd c)) /\ owner_free (fst (snd c)) /\
-    exists d i oid e, snd (snd c) = KInstance i /\ IDen d (fst (snd c)) i oid e ids /\ tr = XInst e /\
+    exists d i oid e, snd (snd c) = KInstance i /\ SIDen d (fst (snd c)) i oid e ids /\ tr = XInst e /\
                       (oid = None \/ oid = Some (fst c)).
   Definition nested_contrib (c : contrib) : Prop := exists tr ids, ncontrib c tr ids.
-  Definition apart (c1 c2 : contrib) : Prop :=
-    forall tr1 ids1 tr2 ids2, ncontrib c1 tr1 ids1 -> ncontrib c2 tr2 ids2 -> forall j, In j ids1 -> ~ In j ids2.
-  Inductive once : list contrib -> Prop :=
-  | once_nil : once []
-  | once_cons c l : (forall c0, In c0 l -> apart c c0) -> once l -> once (c :: l).
-
-  Lemma apart_sym c1 c2 : apart c1 c2 -> apart c2 c1.
-  Proof. intros H tr1 ids1 tr2 ids2 H1 H2 j Hj Hj'. exact (H _ _ _ _ H2 H1 j Hj' Hj). Qed.
   Lemma ncontrib_tag c tr ids j : ncontrib c tr ids -> In j ids -> id_tag j = t_tag (fst (snd c)).
   Proof.
     intros [_ [_ [d [i [oid [e [_ [ID _]]]]]]]] Hj. destruct (IDen_exist _ _ _ _ _ _ ID j Hj) as [z Hz]. now apply get_if_lt in Hz.
-  Qed.
-  (** contributions from different collections share nothing *)
-  Lemma apart_tags c1 c2 : t_tag (fst (snd c1)) <> t_tag (fst (snd c2)) -> apart c1 c2.
-  Proof.
-    intros N tr1 ids1 tr2 ids2 H1 H2 j Hj Hj'. apply N. rewrite <- (ncontrib_tag _ _ _ j H1 Hj). now apply (ncontrib_tag _ _ _ j H2).
-  Qed.
-  Lemma once_tags l : NoDup (map (fun c : contrib => t_tag (fst (snd c))) l) -> once l.
-  Proof.
-    induction l as [|c l IH]; cbn [map]; intros ND; constructor; inversion ND as [|? ? Hn ND']; subst; auto.
-    intros c0 Hc0. apply apart_tags. intros E. apply Hn. rewrite E. now apply (in_map (fun c : contrib => t_tag (fst (snd c)))).
   Qed.
 
   Lemma ncontrib_wt c tr ids : ncontrib c tr ids -> exists d, wt d tr.
@@ -143,13 +125,13 @@ Section NHist.
     - exists (fun _ => []). split; [intros ? ? []|intros ? ? ? []].
   Qed.
 
-  Lemma no_iface_on_track_n imports rd names ifaces name :
-    NInv (map fst imports) rd names -> (forall n1 (y1 : id), In (n1, y1) ifaces -> In n1 names) ->
+  (** no contributed name is on the track of a name that is neither an import nor compatible with one *)
+  Lemma no_name_on_track imports rd names name :
+    NInv (map fst imports) rd names ->
     assoc name imports = None -> find_compat name (imports : list (str * kind)) = None ->
-    assoc name ifaces = None /\ find_compat name (ord ifaces) = None.
+    forall n1, In n1 names -> compat n1 name = true -> False.
   Proof.
-    intros I0 Hif Ea Ef.
-    assert (Hno : forall n1, In n1 names -> compat n1 name = true -> False).
+    intros I0 Ea Ef.
     { intros n1 Hn1 C. pose proof (ni_total _ _ _ I0 n1 Hn1) as Hk. pose proof (canon_compat _ _ _ n1 I0) as Cc.
       set (k := canon rd n1) in *.
       assert (Ck : compat name k = true) by (rewrite compat_sym in C; apply (compat_trans _ _ _ C Cc)).
@@ -158,6 +140,13 @@ Section NHist.
       - apply SemverProofs.str_eqb_neq in E. destruct (compat_on_track _ _ Ck E) as [ak [nv [ev [An Ae]]]].
         unfold find_compat in Ef. rewrite An in Ef. apply in_keys_assoc in Hk as [v Hv]. apply assoc_in in Hv.
         now apply (find_on_track_none _ _ Ef k v ak ev Hv Ae). }
+  Qed.
+  Lemma no_iface_on_track_n imports rd names ifaces name :
+    NInv (map fst imports) rd names -> (forall n1 (y1 : id), In (n1, y1) ifaces -> In n1 names) ->
+    assoc name imports = None -> find_compat name (imports : list (str * kind)) = None ->
+    assoc name ifaces = None /\ find_compat name (ord ifaces) = None.
+  Proof.
+    intros I0 Hif Ea Ef. pose proof (no_name_on_track imports rd names name I0 Ea Ef) as Hno.
     split.
     - destruct (assoc name ifaces) as [y1|] eqn:E; auto. exfalso.
       apply (Hno name); [apply (Hif name y1 (assoc_in _ _ _ E)) | apply compat_refl].
@@ -169,17 +158,17 @@ Section NHist.
 
   (** merging a nested contribution into the import rooted at [y] *)
   Lemma nmerge_into a s done t i d oid eb ids y oidr e d0 idsr cc :
-    NestInv a s done -> Col t -> IDen d t i oid eb ids -> fresh ids (core_of a s) ->
+    NestInv a s done -> Col t -> SIDen d t i oid eb ids ->
     IDen d0 (a_types a) y oidr e idsr ->
     merge_item_kind ord cf fuel (KInstance y) t (KInstance i) (core_of a s) = AOk (tt, cc) ->
     exists em idsr' d1, tmerge (XInst e) (XInst eb) = Some (XInst em) /\ IDen d1 (c_types cc) y oidr em idsr' /\
        MI cc /\ MFrame idsr (core_of a s) cc /\ rm_frame ids (core_of a s) cc /\
        (forall j, In j idsr' -> In j idsr \/ (length (t_interfaces (a_types a)) <= id_idx j)%nat).
   Proof.
-    intros HI Ct IDc Hfresh IDr H. cbn [merge_item_kind] in H.
+    intros HI Ct IDc IDr H. cbn [merge_item_kind] in H.
     destruct (ML_all ord cf Col Col_same tag0 Col_tag t Ct (Nat.max d d0) fuel y oidr e idsr i oid eb ids (core_of a s) cc
                      (n_minv _ _ _ HI) (IDen_mono _ _ _ _ _ _ _ (Nat.le_max_r d d0) IDr)
-                     (IDen_mono _ _ _ _ _ _ _ (Nat.le_max_l d d0) IDc) Hfresh H)
+                     (IDen_mono _ _ _ _ _ _ _ (Nat.le_max_l d d0) IDc) H)
       as [em [idsr' [[n Hn] [ID' [I' [Fr [Rm Sub]]]]]]].
     exists em, idsr', (Nat.max d d0). split; [|auto 6].
     apply (tmerge_complete (S n)). cbn [tmerge_f]. now rewrite Hn.
@@ -234,19 +223,16 @@ Section NHist.
   Qed.
 
   Theorem NestInv_step a s done c tr ids a' s' :
-    NestInv a s done -> ncontrib c tr ids -> (forall c0, In c0 done -> apart c c0) ->
+    NestInv a s done -> ncontrib c tr ids ->
     aggregate ord cf fuel a s (fst c) (fst (snd c)) (snd (snd c)) = AOk (a', s') -> NestInv a' s' (c :: done).
   Proof.
-    intros HI Hc Hap H. destruct c as [name [t k]]. cbn [fst snd] in *.
+    intros HI Hc H. destruct c as [name [t k]]. cbn [fst snd] in *.
     pose proof Hc as [Ct [OF [d [i [oid [eb [Ek [IDc [Etr Hoid]]]]]]]]]. cbn [fst snd] in *. subst k tr.
     pose proof (n_names _ _ _ HI) as I0.
     pose proof (aggregate_NStep ord cf fuel a s name t _ a' s' OF (ni_nodup _ _ _ I0) H) as NS.
     pose proof (NStep_preserves _ _ _ _ _ _ I0 NS) as I'.
     destruct (n_roots _ _ _ HI) as [rown [Hroots Hrdisj]].
     pose proof (ni_nodup _ _ _ I0) as NDim.
-    assert (Hfresh : fresh ids (core_of a s)).
-    { intros j Hj. cbn [c_remapped core_of]. destruct (rm_get (TInterface j) (a_remapped a)) as [v|] eqn:X; auto. exfalso.
-      destruct (n_ifkeys _ _ _ HI _ _ X) as [c0 [tr0 [ids0 [Hin0 [Hc0 Hj0]]]]]. exact (Hap c0 Hin0 _ _ _ _ Hc Hc0 j Hj Hj0). }
     assert (Hif_old : forall cc, c_ifaces cc = a_ifaces a ->
                                  forall n1 y1, In (n1, y1) (c_ifaces cc) -> In n1 (name :: map fst done)).
     { intros cc E n1 y1 Hin. rewrite E in Hin. right. apply (n_ifaces _ _ _ HI n1 y1 Hin). }
@@ -255,7 +241,7 @@ Section NHist.
     apply aggregate_cases in H as [[existing [cc [Ea [Hm [-> ->]]]]] | [[en [ek [cc [im [rd' [Ea [Ef [Hm [Hr [-> ->]]]]]]]]]] | [k' [cc [Ea [Ef [Hm [Hh [-> ->]]]]]]]]].
     - (* the name is an import already *)
       destruct (Hroots name existing (assoc_in _ _ _ Ea)) as [y [oidr [e [d0 [-> [IDr MO]]]]]].
-      destruct (nmerge_into a s done t i d oid eb ids y oidr e d0 (rown name) cc HI Ct IDc Hfresh IDr Hm)
+      destruct (nmerge_into a s done t i d oid eb ids y oidr e d0 (rown name) cc HI Ct IDc IDr Hm)
         as [em [idsr' [d1 [Htm [ID' [M [Fr [Rm Sub]]]]]]]].
       pose proof (mf_imports _ _ _ Fr) as Him. cbn [c_imports core_of] in Him.
       cbn [a_imports a_redirects agg_of] in I'. rewrite Him in *.
@@ -295,7 +281,7 @@ Section NHist.
       assert (Hken : In en (map fst (a_imports a))) by (eapply assoc_in_keys; eauto).
       assert (Nne : name <> en) by (intros ->; contradiction).
       destruct (Hroots en ek Hin) as [y [oidr [e [d0 [-> [IDr MO]]]]]].
-      destruct (nmerge_into a s done t i d oid eb ids y oidr e d0 (rown en) cc HI Ct IDc Hfresh IDr Hm)
+      destruct (nmerge_into a s done t i d oid eb ids y oidr e d0 (rown en) cc HI Ct IDc IDr Hm)
         as [em [idsr' [d1 [Htm [ID' [M [Fr [Rm Sub]]]]]]]].
       pose proof (mf_imports _ _ _ Fr) as Him. cbn [c_imports core_of] in Him.
       rewrite Him in Hr. unfold rename in Hr.
@@ -391,12 +377,32 @@ Section NHist.
       destruct fuel as [|f]; [discriminate|]. cbn [remap_item_kind] in Hm.
       apply bindM_ok in Hm as [y [c1 [H1 H2]]]. apply ret_ok in H2 as [-> ->].
       assert (Hlook : forall nm, oid = Some nm ->
-                                 assoc nm (c_ifaces (core_of a s)) = None /\ find_compat nm (ord (c_ifaces (core_of a s))) = None).
+                                 assoc nm (c_ifaces (core_of a s)) = None /\ find_compat nm (ord (c_ifaces (core_of a s))) = None /\
+                                 rm_get (TInterface i) (c_remapped (core_of a s)) = None).
       { intros nm Hnm. destruct Hoid as [X|X]; [congruence|]. assert (nm = name) as -> by congruence.
-        cbn [c_ifaces core_of]. apply (no_iface_on_track_n (a_imports a) (a_redirects a) (map fst done)); auto.
-        apply (n_ifaces _ _ _ HI). }
-      destruct (RI_all ord cf Col Col_same tag0 Col_tag t Ct d f i oid eb ids (core_of a s) y c1 (n_minv _ _ _ HI) IDc Hfresh Hlook H1)
-        as [ids' [ID' [M [E [Nw [Rm [Hifc _]]]]]]].
+        cbn [c_ifaces c_remapped core_of].
+        destruct (no_iface_on_track_n (a_imports a) (a_redirects a) (map fst done) (a_ifaces a) name I0 (n_ifaces _ _ _ HI) Ea Ef) as [L1 L2].
+        split; [exact L1|]. split; [exact L2|].
+        (* a recorded interface with an identifier is the root of an earlier contribution of that name: the name would be
+           an import (or compatible with one) already *)
+        destruct (rm_get (TInterface i) (a_remapped a)) as [v|] eqn:Xr; auto. exfalso.
+        destruct (n_ifkeys _ _ _ HI _ _ Xr) as [c0 [tr0 [ids0 [Hin0 [Hc0 Hj0]]]]].
+        pose proof (ncontrib_tag _ _ _ _ Hc0 Hj0) as Tg0.
+        destruct Hc0 as [Ct0 [_ [d0 [i0 [oid0 [e0 [_ [ID0 [_ Hoid0]]]]]]]]].
+        destruct (IDen_root _ _ _ _ _ _ IDc) as [_ [x [Hgx Hix]]].
+        assert (Et : fst (snd c0) = t).
+        { apply Col_same; auto. rewrite <- Tg0. now destruct (get_if_lt _ _ _ Hgx). }
+        rewrite Et in ID0.
+        destruct (IDen_anon _ _ _ _ _ _ ID0 i Hj0) as [->|[x' [Hgx' Hix']]]; [|rewrite Hgx in Hgx'; congruence].
+        destruct (IDen_root _ _ _ _ _ _ ID0) as [_ [x0 [Hgx0 Hix0]]]. rewrite Hgx in Hgx0. injection Hgx0 as <-.
+        assert (E0 : fst c0 = name) by (destruct Hoid0; congruence).
+        apply (no_name_on_track (a_imports a) (a_redirects a) (map fst done) name I0 Ea Ef name);
+          [rewrite <- E0; now apply in_map | apply compat_refl]. }
+      destruct (RI_all ord cf Col Col_same tag0 Col_tag t Ct d f i oid eb ids (core_of a s) y c1 (n_minv _ _ _ HI) IDc Hlook H1)
+        as [ids' [ID' [M [E [Nw [Rm0 Hifc]]]]]].
+      assert (Rm : rm_frame ids (core_of a s) c1).
+      { eapply rm_frame_weaken; [|exact Rm0]. intros j Hj. destruct oid; [|destruct Hj].
+        destruct Hj as [<-|[]]. now destruct (IDen_root _ _ _ _ _ _ IDc). }
       pose proof (ax_imports _ _ E) as Him. cbn [c_imports core_of] in Him.
       rewrite Him in *. cbn [a_imports a_redirects agg_of] in I'.
       assert (Hnin : ~ In name (map fst (a_imports a))) by now apply assoc_none_keys.
